@@ -20,12 +20,22 @@ The debounce timers of one notification kind are modelled as
 The model describes the REPAIRED tree: the deferred clean-up of `subscriptionsListen` removes only
 table entries that carry the id of the listen that ends (fixes/F19-listen-cleanup-by-id.patch).
 
+A `subscriptionsListen` handler is TWO labels: `listen` = its registration section under `Server.mu`
+(the list-changed tables, resp. the one `subscribe` call), `listenAck` = the write of
+`notifications/subscriptions/acknowledged`.  Every other label may be scheduled between the two, and
+between the acknowledgement and whatever the handler does next (nothing, in the code that exists:
+it parks on `ctx.Done()`).  `ack_after_registration` (Props.lean) is the statement that the code
+registers BEFORE it acknowledges: from the instant the client can hold the acknowledgement, every
+`notifySessions` snapshot and every `ResourceUpdated` lookup finds the session.
+
 Environment assumptions, enforced as guards of the labels (a label whose guard fails is a no-op):
 the SDK client opens `subscriptions/listen` only on a 2026-07-28 session, at most one live listen
-per session asks for a given list-changed kind or a given URI, and `resources/subscribe` /
+per session asks for a given list-changed kind or a given URI, one listen asks either for
+list-changed kinds only (the connect-time listen) or for exactly one URI (`ClientSession.Subscribe`)
+— so its registration is ONE critical section of the Go code —, and `resources/subscribe` /
 `resources/unsubscribe` are used only by legacy sessions (`ClientSession.Subscribe` does exactly this).
 
-Ghost fields (never read by the modelled code): `owed`, `listens`, `rlive`.
+Ghost fields (never read by the modelled code): `owed`, `listens`, `acked`, `rlive`.
 Core Lean only (linked into the driver).
 -/
 namespace Notify
@@ -55,7 +65,8 @@ structure KState where
   /-- `toolChangeSubscriptions` etc.: session id ↦ listen request id -/
   subs : List (Nat × Nat) := []
 
-/-- ghost: a live `subscriptionsListen` handler and what it was granted -/
+/-- ghost: a live `subscriptionsListen` handler (from its registration section on) and what it was
+granted (`allowed`, a local variable of the handler) -/
 structure Listen where
   sid : Nat
   id : Nat
@@ -77,12 +88,17 @@ structure Server where
   owed : List (Nat × Kind)
   /-- ghost: live listen handlers -/
   listens : List Listen
-  /-- ghost: (session, uri) — subscriptions the client side considers live -/
+  /-- ghost: (session, listen id) — live listen handlers that have written their acknowledgement,
+  i.e. subscriptions the CLIENT may know to be live -/
+  acked : List (Nat × Nat)
+  /-- ghost: (session, uri) — resource subscriptions that were requested and registered and not yet
+  undone (for a 2026-07-28 session: from the registration section of the listen, which precedes its
+  acknowledgement, to the end of the listen) -/
   rlive : List (Nat × Nat)
 
 def init (cap : Kind → Cap) : Server :=
   { cap := cap, now := 0, ver := fun _ => 0, cnt := fun _ => 0, sessions := [], ks := fun _ => {},
-    rsubs := [], owed := [], listens := [], rlive := [] }
+    rsubs := [], owed := [], listens := [], acked := [], rlive := [] }
 
 structure Send where
   sid : Nat
@@ -105,6 +121,7 @@ inductive Label where
   | bind (sid : Nat)
   | hello (sid : Nat) (modern : Bool)
   | listen (sid id : Nat) (kinds : List Kind) (uris : List Nat)
+  | listenAck (sid id : Nat)
   | listenEnd (sid id : Nat)
   | subscribe (sid id uri : Nat)
   | unsubscribe (sid uri : Nat)
@@ -223,18 +240,37 @@ def listenOk (s : Server) (sid id : Nat) (kinds : List Kind) (uris : List Nat) :
   s.listens.all (fun l => l.sid != sid ||
     (l.id != id && kinds.all (fun k => !l.kinds.contains k) && uris.all (fun u => !l.uris.contains u)))
 
-def listen (s : Server) (sid id : Nat) (kinds : List Kind) (uris : List Nat) : Server × List Out :=
-  if (sid, Gen.modern) ∈ s.sessions ∧ listenOk s sid id kinds uris = true ∧ uris.Nodup then
+/-- What one listen of the SDK client asks for: list-changed kinds only, or exactly one URI. -/
+def listenShape (kinds : List Kind) (uris : List Nat) : Bool :=
+  uris.isEmpty || (kinds.isEmpty && uris.length == 1)
+
+/-- The registration section of `subscriptionsListen` (`allowedSubscriptions`, then the tables under
+`Server.mu`, resp. the `subscribe` call of the one URI).  Nothing is written to the client here. -/
+def listen (s : Server) (sid id : Nat) (kinds : List Kind) (uris : List Nat) : Server :=
+  if (sid, Gen.modern) ∈ s.sessions ∧ listenOk s sid id kinds uris = true ∧ uris.Nodup ∧
+      listenShape kinds uris = true then
     let ak := kinds.filter (gateListen s)
     let au := if resSub s then uris else []
-    ({ s with
+    { s with
         ks := fun t => { s.ks t with
           subs := if ak.any (fun k => listenTable k == some t) then put (s.ks t).subs sid id else (s.ks t).subs },
         rsubs := s.rsubs.filter (fun r => !(r.2.1 == sid && au.contains r.1)) ++ au.map (fun u => (u, sid, id)),
         rlive := s.rlive ++ au.map (fun u => (sid, u)),
-        listens := if ak = [] ∧ au = [] then s.listens else s.listens ++ [⟨sid, id, ak, au⟩] },
-     [.ack sid id ak au])
-  else (s, [])
+        listens := s.listens ++ [⟨sid, id, ak, au⟩] }
+  else s
+
+/-- `req.Session.notifySubscriptionAcked(ctx, ackParams)`: the handler that registered as `(sid, id)`
+writes its acknowledgement (once).  It touches no table.  A handler that was granted nothing returns
+right afterwards (its deferred clean-up finds nothing to delete); any other handler parks on
+`ctx.Done()` and is from now on recorded in `acked`. -/
+def listenAck (s : Server) (sid id : Nat) : Server × List Out :=
+  match s.listens.find? (fun l => l.sid == sid && l.id == id) with
+  | none => (s, [])
+  | some l =>
+    if (sid, id) ∈ s.acked then (s, []) else
+    if l.kinds = [] ∧ l.uris = [] then
+      ({ s with listens := s.listens.filter (fun l' => !(l'.sid == sid && l'.id == id)) }, [.ack sid id [] []])
+    else ({ s with acked := s.acked ++ [(sid, id)] }, [.ack sid id l.kinds l.uris])
 
 /-- The deferred clean-up of `subscriptionsListen` (REPAIRED: by request id) and its deferred
 `unsubscribe` calls. -/
@@ -246,7 +282,8 @@ def listenEnd (s : Server) (sid id : Nat) : Server :=
       ks := fun t => { s.ks t with subs := (s.ks t).subs.filter (fun p => !(p.1 == sid && p.2 == id)) },
       rsubs := s.rsubs.filter (fun r => !(r.2.1 == sid && l.uris.contains r.1)),
       rlive := s.rlive.filter (fun p => !(p.1 == sid && l.uris.contains p.2)),
-      listens := s.listens.filter (fun l' => !(l'.sid == sid && l'.id == id)) }
+      listens := s.listens.filter (fun l' => !(l'.sid == sid && l'.id == id)),
+      acked := s.acked.filter (fun p => !(p.1 == sid && p.2 == id)) }
 
 def subscribe (s : Server) (sid id uri : Nat) : Server :=
   if (sid, Gen.legacy) ∈ s.sessions then
@@ -269,6 +306,7 @@ def close (s : Server) (sid : Nat) : Server :=
     rsubs := s.rsubs.filter (fun r => r.2.1 != sid),
     owed := s.owed.filter (fun p => p.1 != sid),
     listens := s.listens.filter (fun l => l.sid != sid),
+    acked := s.acked.filter (fun p => p.1 != sid),
     rlive := s.rlive.filter (fun p => p.1 != sid) }
 
 /-- `ResourceUpdated`: the subscribers of the URI, split by protocol generation. -/
@@ -284,7 +322,8 @@ def step (s : Server) : Label → Server × List Out
   | .cbrun k => cbrun s k
   | .bind sid => (bind s sid, [])
   | .hello sid m => (hello s sid m, [])
-  | .listen sid id kinds uris => listen s sid id kinds uris
+  | .listen sid id kinds uris => (listen s sid id kinds uris, [])
+  | .listenAck sid id => listenAck s sid id
   | .listenEnd sid id => (listenEnd s sid id, [])
   | .subscribe sid id u => (subscribe s sid id u, [])
   | .unsubscribe sid u => (unsubscribe s sid u, [])
